@@ -38,6 +38,9 @@
  *   unsigned   16u = 16s with the top bit flipped, 8u = 8s with the top bit flipped (sample by sample);
  *   highbyte   8s = high byte of 16s, 8u = high byte of 16u;
  *   amp        out(a) = floor(out(a+1) / 2) where out(a+1) is not clipped, |out(a)| >= half scale where it is;
+ *   voice_state  every mixer voice of the context with the mono flag flipped is in the same state as in the group, the pan
+ *              apart (channel, sample, volume, period, position, filter cutoff / resonance / coefficients): mono vs stereo
+ *              does not change the music;
  *   acc        the 32-bit accumulator buffers (read through the private headers) of all group
  *              members are identical: format bits and amplification act on the encoding only.
  * Tie of the call site to the model (compared with the Lean driver by the check):
@@ -282,12 +285,12 @@ static int run_case(const char *path, const unsigned char *data, long size, uint
 	int i, j, nops, frame, nctx = 0, sites = 0, played = 0;
 	int R, M, A, len, total;
 	long nonsilent = 0, clipped = 0, rowchg = 0, poschg = 0, samples_cmp = 0, opok = 0, reconf = 0;
-	long novoice = 0, clampedf = 0, tfroll = 0, tfprobes = 0, setprobes = 0;
+	long novoice = 0, clampedf = 0, tfroll = 0, tfprobes = 0, setprobes = 0, restarts = 0;
 	int bpmmin = 1 << 30;
 	double tfmax = 0;
 	int slow;
 	int lastrow = -1, lastpos = -1, maxloop = 0, lastbpm = -1;
-	long bpmchg = 0;
+	long bpmchg = 0, voicecmp = 0, voicecmp_filter = 0;
 	long fails_before = n_fail;
 
 	vrng_seed(cseed);
@@ -373,7 +376,7 @@ static int run_case(const char *path, const unsigned char *data, long size, uint
 	for (i = 0; i < nops; i++) {
 		ops[i].frame = vrng_range(0, maxframes - 1);
 		{
-			static const int kinds[] = { 0, 1, 2, 3, 4, 5, 6, 7, 9, 9, 10, 11 };
+			static const int kinds[] = { 0, 1, 2, 3, 4, 5, 6, 7, 9, 9, 10, 11, 12 };
 			ops[i].kind = kinds[vrng_below(sizeof(kinds) / sizeof(kinds[0]))];
 		}
 		ops[i].arg = 0;
@@ -381,6 +384,8 @@ static int run_case(const char *path, const unsigned char *data, long size, uint
 			ops[i].arg = (int)vrng_below(NCTX) * 16 + (int)vrng_below(NMULT + 2);
 		else if (ops[i].kind == 10)
 			ops[i].arg = (int)vrng_below(9);
+		else if (ops[i].kind == 12)
+			ops[i].arg = (int)vrng_below(2);
 		else if (ops[i].kind == 11)
 			ops[i].arg = (int)vrng_below(NSPARM) * 16 + (vrng_chance(50) ? 0 : 1 + (int)vrng_below(NSPBAD));
 		if (ops[i].kind == 6)
@@ -395,6 +400,24 @@ static int run_case(const char *path, const unsigned char *data, long size, uint
 			ops[i].arg = vrng_chance(90) ? vrng_range(0, 63) : vrng_range(-2, 300);
 	}
 
+	/* one case in two restarts the player in mid-play (xmp_start_player without xmp_end_player), after the position
+	 * control calls of the first half: one half of the contexts with the configuration they already have, the other half
+	 * with a new rate / format */
+	if (vrng_chance(50) && nops < MAXOPS - 8) {
+		ops[nops].frame = vrng_range(maxframes / 4, maxframes / 2 + 1);
+		ops[nops].kind = 12;
+		ops[nops].arg = (int)vrng_below(2);
+		nops++;
+		if (vrng_chance(50)) {
+			/* … right after a jump into another part (sequence) of the module */
+			ops[nops].frame = ops[nops - 1].frame - 1 - (int)vrng_below(3);
+			if (ops[nops].frame < 0)
+				ops[nops].frame = 0;
+			ops[nops].kind = 0;
+			ops[nops].arg = vrng_range(0, len - 1);
+			nops++;
+		}
+	}
 	/* every case probes the acceptance limit of xmp_set_tempo_factor a few times */
 	for (i = 0; i < 4 && nops < MAXOPS - 3; i++) {
 		ops[nops].frame = vrng_range(0, maxframes > 40 ? 40 : maxframes - 1);
@@ -457,6 +480,34 @@ static int run_case(const char *path, const unsigned char *data, long size, uint
 				if (r == 0)
 					opok++;
 				tfprobes++;
+				continue;
+			}
+			if (ops[j].kind == 12) {
+				/* xmp_start_player while playing: the group keeps its configuration and the free contexts get a new
+				 * one, or the other way round; afterwards every context must report the same timeline */
+				int group_changes = ops[j].arg & 1;
+				int newR = pick_rate();
+				for (i = 0; i < NCTX; i++) {
+					int changes = i < NGROUP ? group_changes : !group_changes, r;
+					if (changes && i < NGROUP) {
+						k[i].rate = newR;
+						k[i].fmt ^= XMP_FORMAT_MONO;	/* the whole group flips: its relations are kept */
+					} else if (changes) {
+						k[i].rate = pick_rate();
+						k[i].fmt = vrng_range(0, 7);
+					}
+					r = xmp_start_player(c[i], k[i].rate, k[i].fmt);
+					if (i == 0)
+						r0 = r;
+					else if (r != r0)
+						ofail("timeline", frame, 0, i, "restart_ret", r0, r);
+					libxmp_set_random(&((struct context_data *)c[i])->rng, 0x13572468u ^ (unsigned)cseed);
+					apply_cfg(c[i], &k[i]);
+					apply_chan(c[i], &k[i]);
+				}
+				restarts++;
+				if (r0 < 0)
+					goto stop_case;
 				continue;
 			}
 			if (ops[j].kind == 11) {
@@ -566,6 +617,27 @@ static int run_case(const char *path, const unsigned char *data, long size, uint
 		if (fi[7].buffer_size * ((k[7].fmt & XMP_FORMAT_MONO) ? 2 : 1) != fi[A].buffer_size * ((k[A].fmt & XMP_FORMAT_MONO) ? 2 : 1))
 			ofail("layout", frame, A, 7, "mono_stereo", fi[A].buffer_size, fi[7].buffer_size);
 
+		/* the music does not depend on mono / stereo: apart from the pan, every voice of the context with the mono flag
+		 * flipped (ctx 7: same rate, interpolator, volume settings) is in the same state as in the group - same channel,
+		 * sample, volume, pitch, position, and the same resonant-filter setting (cutoff / resonance / coefficients can be
+		 * driven by MIDI macros from player variables) */
+		{
+			int nv = g[A]->p.virt.maxvoc < g[7]->p.virt.maxvoc ? g[A]->p.virt.maxvoc : g[7]->p.virt.maxvoc, v;
+			for (v = 0; v < nv; v++) {
+				const struct mixer_voice *a = &g[A]->p.virt.voice_array[v], *b = &g[7]->p.virt.voice_array[v];
+#define VCMP(f) if (a->f != b->f) { ofail("voice_state", frame, A, 7, #f, (long)a->f, (long)b->f); break; }
+				VCMP(chn) VCMP(root) VCMP(ins) VCMP(smp) VCMP(note) VCMP(vol) VCMP(period) VCMP(pos)
+				if ((a->fidx & 0x0b) != (b->fidx & 0x0b)) { ofail("voice_state", frame, A, 7, "fidx", a->fidx, b->fidx); break; }
+				VCMP(filter.cutoff) VCMP(filter.resonance) VCMP(filter.a0) VCMP(filter.b0) VCMP(filter.b1)
+#undef VCMP
+				if (a->chn >= 0) {
+					voicecmp++;
+					if ((a->fidx & 0x08) && !(a->filter.cutoff >= 0xfe && a->filter.resonance == 0))
+						voicecmp_filter++;
+				}
+			}
+		}
+
 		n16 = fi[0].buffer_size / 2;	/* samples per frame in the groups (same mono flag) */
 		{
 			/* acc: accumulators identical across amp/encoding group (ctx 0..6) */
@@ -647,11 +719,12 @@ static int run_case(const char *path, const unsigned char *data, long size, uint
 			}
 		}
 	}
+    stop_case:
 	for (i = 0; i < NCTX; i++)
 		xmp_end_player(c[i]);
-	printf("stat frames=%d rowchg=%ld poschg=%ld loops=%d nonsilent=%ld clipped=%ld samples=%ld opok=%ld reconf=%ld novoice=%ld clampticks=%ld tfroll=%ld slow=%d bpmmin=%d tfmax=%d tfprobes=%ld tfcalls=%ld tfaccept=%ld tfrefuse=%ld tfpairs=%ld setprobes=%ld bpmchg=%ld fails=%ld\n",
+	printf("stat frames=%d rowchg=%ld poschg=%ld loops=%d nonsilent=%ld clipped=%ld samples=%ld opok=%ld reconf=%ld novoice=%ld clampticks=%ld tfroll=%ld slow=%d bpmmin=%d tfmax=%d tfprobes=%ld tfcalls=%ld tfaccept=%ld tfrefuse=%ld tfpairs=%ld setprobes=%ld bpmchg=%ld voicecmp=%ld voicecmp_filter=%ld restarts=%ld fails=%ld\n",
 	       played, rowchg, poschg, maxloop, nonsilent, clipped, samples_cmp, opok, reconf, novoice, clampedf, tfroll, slow, bpmmin, (int)tfmax,
-	       tfprobes, n_tf_calls, n_tf_accept, n_tf_refuse, n_tf_samerate_pairs, setprobes, bpmchg, n_fail - fails_before);
+	       tfprobes, n_tf_calls, n_tf_accept, n_tf_refuse, n_tf_samerate_pairs, setprobes, bpmchg, voicecmp, voicecmp_filter, restarts, n_fail - fails_before);
     out:
 	printf("end\n");
 	for (i = 0; i < NCTX; i++) {
